@@ -12,7 +12,8 @@ Inductive case :=
 | KRun (labels : list plabel) (outputs : list nat)   (* request number -> id of the text its preview prints *)
        (seen : list nat) (final : option nat)       (* ids of the texts put into the pane, in order; the final one *)
 | KFront (calls : list fcall) (sent : list bool)
-| KScroll (off : nat) (diff : Z) (len : nat) (got : nat).
+| KScroll (off : nat) (diff : Z) (len : nat) (got : nat)
+| KScrollInit (req len got : nat).
 
 Fixpoint front_run (f : pfront) (cs : list fcall) : list bool :=
   match cs with
@@ -31,4 +32,5 @@ Definition check (c : case) : bool :=
       end
   | KFront calls sent => list_eqb Bool.eqb (front_run pfront0 calls) sent
   | KScroll off diff len got => Nat.eqb (scroll_down off diff len) got
+  | KScrollInit req len got => Nat.eqb (scroll_init req len) got
   end.
